@@ -40,8 +40,8 @@ USER_RECIPES = {
 def cases(tier, seed):
     rng = random.Random(seed + 1100)
     cs = []
-    n_user = 14 if tier == "quick" else 80
-    n_thermo = 4 if tier == "quick" else 12
+    n_user = 14 if tier == "quick" else 250
+    n_thermo = 4 if tier == "quick" else 40
     for i in range(n_user):
         bf = rng.choice([2, 4, 4])
         g = dict(seed=rng.randrange(10 ** 9), ndims=3, nlevels=1 + i % 3, bf=bf,
